@@ -39,7 +39,7 @@ func (P) Engine() string { return "E1" }
 
 func (P) Describe() harness.Description {
 	return harness.Description{
-		MustHit: []string{"invalid_rule_in_load", "nil_rule_in_load", "identical_reload", "probe_blocked_by_enforced_rule", "per_resource_load"},
+		MustHit: []string{"element_replaced_in_loaded_slice_and_reloaded", "invalid_rule_in_load", "nil_rule_in_load", "identical_reload", "probe_blocked_by_enforced_rule", "per_resource_load"},
 		Level:   "exploration",
 		Rule: "case = (table of 6-24 rule specifications over the six modules: valid never-blocking, valid always-blocking, invalid in exactly one field-wise way (built so that they would block a probe if enforced), nil elements; 5-30 operations: LoadRules, LoadRulesOfResource, ClearRules, ClearRulesOfResource, identical reload with freshly allocated objects, probe). " +
 			"After every call: no panic escaped; the getters equal the rule-set model (per resource, in order); the enforcement accessors (traffic controllers / breakers / enforced outlier rule) carry exactly the model's rules; probe traffic on every resource is blocked by exactly the first module that holds an enforced blocking rule and otherwise passes; an identical reload reports 'unchanged'. " +
@@ -103,6 +103,7 @@ func (P) Gen(rng *sim.Rng, tier string) *harness.Case {
 		return l
 	}
 	var ops []harness.Op
+	lastM := -1
 	for k := rng.Range(5, 30); len(ops) < k; {
 		m := rng.Intn(rs.NumModules)
 		cand := byMod(m)
@@ -126,10 +127,12 @@ func (P) Gen(rng *sim.Rng, tier string) *harness.Case {
 		switch rng.Weighted([]int{35, 20, 5, 8, 12, 20}) {
 		case 0:
 			ops = append(ops, harness.Op{K: "load", R: m, A: encList(pick(-1))})
+			lastM = m
 		case 1:
 			if m != rs.System {
 				res := rng.Intn(nRes)
 				ops = append(ops, harness.Op{K: "loadres", R: m, E: res, A: encList(pick(res))})
+				lastM = m
 			}
 		case 2:
 			ops = append(ops, harness.Op{K: "clear", R: m})
@@ -138,7 +141,17 @@ func (P) Gen(rng *sim.Rng, tier string) *harness.Case {
 				ops = append(ops, harness.Op{K: "clearres", R: m, E: rng.Intn(nRes)})
 			}
 		case 4:
-			ops = append(ops, harness.Op{K: "again"})
+			if lastM >= 0 && rng.Chance(0.5) {
+				// replace one element of the last loaded slice (candidates for the new rule) and reload the same slice
+				var a []int
+				cm := byMod(lastM)
+				for j := 0; j < 6 && len(cm) > 0; j++ {
+					a = append(a, cm[rng.Intn(len(cm))])
+				}
+				ops = append(ops, harness.Op{K: "editload", E: rng.Intn(8), A: encList(a)})
+			} else {
+				ops = append(ops, harness.Op{K: "again"})
+			}
 		default:
 			ops = append(ops, harness.Op{K: "probe"})
 		}
@@ -169,14 +182,56 @@ func resKey(m int, r rs.RS) string {
 	return rs.ResName(r.Res)
 }
 
+// lastObjs is the very slice of rule objects handed to the module by the last load (see callEdit).
+var lastObjs interface{}
+
+// callEdit is what an application does when it keeps its rule list around: it puts a NEW rule object into the slice it
+// loaded before and hands the SAME slice to the module again. (Editing a loaded rule OBJECT in place is not in the
+// domain: the managers publish the caller's objects to concurrent readers - pinned tests assert that identity -, so an
+// application must not write to them after the load.)
+func callEdit(m int, kind, res string, i int, nr rs.RS) (changed bool, err error) {
+	switch l := lastObjs.(type) {
+	case []*flow.Rule:
+		l[i] = rs.BuildFlow(nr)
+		if kind == "load" {
+			return flow.LoadRules(l)
+		}
+		return flow.LoadRulesOfResource(res, l)
+	case []*isolation.Rule:
+		l[i] = rs.BuildIsolation(nr)
+		if kind == "load" {
+			return isolation.LoadRules(l)
+		}
+		return isolation.LoadRulesOfResource(res, l)
+	case []*hotspot.Rule:
+		l[i] = rs.BuildHotspot(nr)
+		if kind == "load" {
+			return hotspot.LoadRules(l)
+		}
+		return hotspot.LoadRulesOfResource(res, l)
+	case []*cb.Rule:
+		l[i] = rs.BuildBreaker(nr)
+		if kind == "load" {
+			return cb.LoadRules(l)
+		}
+		return cb.LoadRulesOfResource(res, l)
+	case []*system.Rule:
+		l[i] = rs.BuildSystem(nr)
+		return system.LoadRules(l)
+	}
+	return false, nil
+}
+
 // call performs the load on the real module with freshly built objects.
 func call(m int, kind string, res string, list []rs.RS) (changed bool, err error) {
+	lastObjs = nil
 	switch m {
 	case rs.Flow:
 		var l []*flow.Rule
 		for _, r := range list {
 			l = append(l, rs.BuildFlow(r))
 		}
+		lastObjs = l
 		switch kind {
 		case "load":
 			return flow.LoadRules(l)
@@ -192,6 +247,7 @@ func call(m int, kind string, res string, list []rs.RS) (changed bool, err error
 		for _, r := range list {
 			l = append(l, rs.BuildIsolation(r))
 		}
+		lastObjs = l
 		switch kind {
 		case "load":
 			return isolation.LoadRules(l)
@@ -207,6 +263,7 @@ func call(m int, kind string, res string, list []rs.RS) (changed bool, err error
 		for _, r := range list {
 			l = append(l, rs.BuildHotspot(r))
 		}
+		lastObjs = l
 		switch kind {
 		case "load":
 			return hotspot.LoadRules(l)
@@ -222,6 +279,7 @@ func call(m int, kind string, res string, list []rs.RS) (changed bool, err error
 		for _, r := range list {
 			l = append(l, rs.BuildBreaker(r))
 		}
+		lastObjs = l
 		switch kind {
 		case "load":
 			return cb.LoadRules(l)
@@ -237,6 +295,7 @@ func call(m int, kind string, res string, list []rs.RS) (changed bool, err error
 		for _, r := range list {
 			l = append(l, rs.BuildSystem(r))
 		}
+		lastObjs = l
 		switch kind {
 		case "load":
 			return system.LoadRules(l)
@@ -440,6 +499,37 @@ func (P) Exec(c *harness.Case) *harness.Outcome {
 			}
 			apply(m, op.K, res, list)
 			last = &lastCall{m, op.K, res, list, lerr}
+		case "editload":
+			// the application replaces one element of the slice it loaded last and loads the same slice again
+			if last == nil || (last.kind != "load" && last.kind != "loadres") || len(last.list) == 0 || last.err != nil || lastObjs == nil || last.m == rs.Outlier || len(op.A) == 0 {
+				continue
+			}
+			i := op.E % len(last.list)
+			if i < 0 || last.list[i].Nil {
+				continue
+			}
+			var pickd *rs.RS
+			for _, cnd := range decode(&cfg, op.A, last.m) {
+				cnd := cnd
+				if !cnd.Nil && cnd.Res == last.list[i].Res && cnd.Token() != last.list[i].Token() {
+					pickd = &cnd
+					break
+				}
+			}
+			if pickd == nil {
+				continue
+			}
+			cand := []rs.RS{*pickd}
+			nl := append([]rs.RS{}, last.list...)
+			nl[i] = cand[0]
+			o.Probe("element_replaced_in_loaded_slice_and_reloaded")
+			var lerr error
+			harness.Call(o, "C13.load-panicked", step, func() { _, lerr = callEdit(last.m, last.kind, last.res, i, cand[0]) })
+			if o.Failed() {
+				return o
+			}
+			apply(last.m, last.kind, last.res, nl)
+			last = &lastCall{last.m, last.kind, last.res, nl, lerr}
 		case "again":
 			// a load that returned an error did not load anything: "identical reload" is about successful loads
 			if last == nil || (last.kind != "load" && last.kind != "loadres") || len(last.list) == 0 || last.err != nil {
